@@ -18,5 +18,6 @@ INVARIANT TextRoundTrip
 INVARIANT OmitRoundTrip
 INVARIANT TokRoundTrip
 INVARIANT TextIsPrintable
+INVARIANT EscapifyExact
 PROPERTY Progress
 CHECK_DEADLOCK FALSE
